@@ -82,12 +82,18 @@ def mk_rfield(r):
                                target_value=mk_tv(r['tv']), matching_operator=MatchingOperator(MOS[r['mo']]),
                                compression_decompression_action=CompressionDecompressionAction(CDAS[r['cda']]))
 
+RELOAD = False   # when set, every rule is passed through its own JSON serialisation before use (enum members come back as plain str)
+
 def mk_rule(r):
     from microschc.rfc8724 import RuleDescriptor, RuleNature
     if r['nature'] == 'n' and not r['fields']:
-        return RuleDescriptor(id=mk_buf(r['id']), nature=RuleNature.NO_COMPRESSION)
-    return RuleDescriptor(id=mk_buf(r['id']), nature=RuleNature.COMPRESSION if r['nature'] == 'c' else RuleNature.NO_COMPRESSION,
-                          field_descriptors=[mk_rfield(f) for f in r['fields']])
+        rd = RuleDescriptor(id=mk_buf(r['id']), nature=RuleNature.NO_COMPRESSION)
+    else:
+        rd = RuleDescriptor(id=mk_buf(r['id']), nature=RuleNature.COMPRESSION if r['nature'] == 'c' else RuleNature.NO_COMPRESSION,
+                            field_descriptors=[mk_rfield(f) for f in r['fields']])
+    if RELOAD:
+        rd = RuleDescriptor.from_json(rd.json())
+    return rd
 
 def mk_context(c):
     from microschc.rfc8724extras import Context
